@@ -699,7 +699,33 @@ func (fc *FuncCtx) enterLoop(fr *Frame, li *loopInfo, cur *State) *State {
 	if mod.all || mod.allocs {
 		fc.bumpAlloc(st)
 	}
-	if mod.all || mod.ghost {
+	if fr.top {
+		// call counters of callees that are first called inside the loop exist from here on (else they would keep
+		// their default 0 at the loop head instead of being havocked)
+		for b := range li.body {
+			for _, ins := range b.Instrs {
+				var cc *ssa.CallCommon
+				pre := ""
+				switch x := ins.(type) {
+				case *ssa.Call:
+					cc = &x.Call
+				case *ssa.Defer:
+					cc = &x.Call
+				case *ssa.Go:
+					cc = &x.Call
+					pre = "go:"
+				}
+				if cc == nil {
+					continue
+				}
+				sh, _ := calleeNames(cc)
+				if _, ok := st.ghost["$calls:"+pre+sh]; !ok {
+					st.ghost["$calls:"+pre+sh] = Scalar{"0", "Int", nil}
+				}
+			}
+		}
+	}
+	if mod.all || mod.ghost || fr.top {
 		for k, v := range st.ghost {
 			if k == "$alloc" || strings.HasPrefix(k, "$defer:") {
 				continue
